@@ -1,6 +1,6 @@
 (* Harness.v: dispatch from a decoded case (function name, arguments) to the model.
    Part of the correspondence harness. *)
-From CCT Require Import Prelude Hex Num Time Formats Json Auth Signing Construct Sha256 Wire Keys.
+From CCT Require Import Prelude Hex Num Time Formats Json Auth Signing Construct Sha256 Wire Keys Gpg.
 Open Scope N_scope.
 
 Definition unit_res (r : res unit) : res pv := x <- r ;; Ok VNone.
@@ -47,6 +47,10 @@ Section Run.
         else if is (U"checkformat_delegating_metadata") then unit_res (checkformat_delegating_metadata a)
         else if is (U"checkformat_key") then unit_res (checkformat_key a)
         else if is (U"canonserialize") then (b <- canonserialize a ;; Ok (VBytes b))
+        else if is (U"frame") then
+          match a with
+          | VList [VBytes d; VBytes h] => (m <- frame d h ;; Ok (VBytes m))
+          | _ => Unmodelled end
         else if is (U"sha256") then match a with VBytes b => Ok (VBytes (sha256 b)) | _ => Unmodelled end
         else if is (U"wrap_as_signable") then wrap_as_signable a
         else if is (U"public_key_of") then public_key_of ed_pub a
@@ -128,7 +132,9 @@ Section Run.
         else if is (U"verify_gpg_signature") then unit_res (verify_gpg_signature ed_verify sha a b c)
         else Unmodelled
     | [a; b; c; d] =>
-        if is (U"verify_signable") then unit_res (verify_signable ed_verify sha a b c d)
+        if is (U"gpg_transcribe") then sign_root_metadata_dict_via_gpg a b c d
+        else if is (U"sign_via_gpg") then sign_via_gpg a b c (py_truth d)
+        else if is (U"verify_signable") then unit_res (verify_signable ed_verify sha a b c d)
         else if is (U"verify_delegation") then unit_res (verify_delegation ed_verify sha a b c d)
         else Unmodelled
     | [VInt n1; VInt n2; a; b; c; d; e] =>
